@@ -451,16 +451,32 @@ def envOf (f : File) : Env := ⟨f.apps.map fun a => (a.parts, a.types.map (·.n
 def ownTypes (e : Env) (a : App) : List (Key × Node) :=
   a.types.map fun t => (key "types" t.name, .msg (typeDeclFields e a.parts t))
 
-/-- types an application receives from the applications it mixes in: those it does not declare
-    itself, as compiled in their own application (mixed-in applications mix in nothing) -/
+/-- the walk of `mixIn` (parse.go): depth-first through the mixin lists in the order they are written,
+    each application at most once (`seen`), collecting what each visited application declares itself.
+    `d` bounds the depth of the descent; an application is entered only when it is not yet in `seen`,
+    so the number of applications is enough. -/
+def mixWalk (f : File) : Nat → List (List String) →
+    (List (List String) × List (List String × TypeDecl)) → (List (List String) × List (List String × TypeDecl))
+  | _, [], st => st
+  | 0, _ :: _, st => st
+  | d+1, m :: rest, (seen, acc) =>
+    if seen.contains m then mixWalk f (d+1) rest (seen, acc) else
+    match f.apps.find? (fun b => b.parts == m) with
+    | none => mixWalk f (d+1) rest (m :: seen, acc)
+    | some b =>
+      let st1 := mixWalk f d b.mixins (m :: seen, acc ++ b.types.map (fun t => (b.parts, t)))
+      mixWalk f (d+1) rest st1
+termination_by d todo _ => (d, todo.length)
+
+/-- types an application receives from the applications it mixes in, directly or through them: those
+    it does not declare itself, the first one met on the walk winning, each as compiled in the
+    application that declares it -/
 def mixedTypes (e : Env) (f : File) (a : App) : List (Key × Node) :=
   let own := a.types.map (·.name)
-  (a.mixins.foldl (fun (acc : List String × List (Key × Node)) m =>
-    match f.apps.find? (fun b => b.parts == m) with
-    | none => acc
-    | some b =>
-      let add := b.types.filter fun t => !acc.1.contains t.name
-      (acc.1 ++ add.map (·.name), acc.2 ++ add.map fun t => (key "types" t.name, .msg (typeDeclFields e b.parts t))))
+  let met := (mixWalk f (f.apps.length + 1) a.mixins ([a.parts], [])).2
+  (met.foldl (fun (acc : List String × List (Key × Node)) (bt : List String × TypeDecl) =>
+    if acc.1.contains bt.2.name then acc
+    else (acc.1 ++ [bt.2.name], acc.2 ++ [(key "types" bt.2.name, .msg (typeDeclFields e bt.1 bt.2))]))
     (own, [])).2
 
 /-- the calls subscribers add to the event `ev` of application `pub` -/
